@@ -3,7 +3,9 @@
    Fam selects the request alphabet: "pubsub" (C02), "retain" (C07), "ending" (C08), "presence" (C18), "all". *)
 EXTENDS Session, Json
 
-CONSTANTS Fam, MaxOps, MaxStore, Gen, Small     \* Small = TRUE: reduced alphabets for the exhaustive edge export
+CONSTANTS Fam, MaxOps, MaxStore, Gen, Small,    \* Small = TRUE: reduced alphabets for the exhaustive edge export
+          NB                                  \* number of brokers the clients are spread over (Home <- HomeMap)
+HomeMap == StdHome(NB)
 
 VARIABLES nops, hist
 mvars == <<allvars, nops, hist>>
@@ -87,7 +89,7 @@ MCPublish == \E c \in Pick(Open), k \in PickW(PubKeyW), w \in Pick(Words \cup (I
                 syn \in PickW(SynW), me0 \in Pick(BOOLEAN), ttl \in Pick(TTLs), rt \in Pick(Rts), qos \in Pick({0, 1}), p \in Pick(Payloads) :
     /\ Fam = "retain" => (me0 = FALSE /\ qos = 1)
     /\ (syn # "ok" \/ IsWild(w)) => (k = "kAll" /\ ~me0 /\ ttl = -1 /\ ~rt)
-    /\ (ttl > 0 \/ rt) => Len(store) < MaxStore
+    /\ (ttl > 0 \/ rt) => Len(store[Home[c]]) < MaxStore
     /\ Publish(c, Req(k, w, syn, me0, ttl), "", rt, qos, p)
     /\ Emit([n |-> "pub", c |-> c, k |-> k, w |-> w, syn |-> syn, me0 |-> me0, ttl |-> ttl, via |-> "", retain |-> rt, qos |-> qos, p |-> p])
 
